@@ -24,6 +24,8 @@ def bounds(tier, seed):
 
 def cases(tier, seed):
     b = bounds(tier, seed)
+    for p, U in al.knotvectors("K5", 2 if tier == "quick" else 3, 2):
+        yield ("K5", p, U)  # far from the origin relative to the spacing
     for K in b["alphabets"]:
         for p, U in al.knotvectors(K, b["pmax"], b["kmax"]):
             if tier == "thorough" and p == 5 and len(set(U)) > 4:
@@ -39,7 +41,7 @@ def run_case(case, res):
     K, p, U = case
     U = list(U)
     n = len(U) - p - 1
-    prm0 = al.params(U, p)
+    prm0 = al.params(U, p, near=True)
     prm = prm0
     outside = [U[0] - 1, U[-1] + F(1, 2)]
 
@@ -100,12 +102,19 @@ def run_case(case, res):
             prm = prm0 + [u for u in near if U[0] < u < U[-1]]
         else:
             prm = prm0
-        expect = [rb.value(U, P, u, W, p) for u in prm]
+        Uref = U
+        if rep != "frac":
+            # the reference works with the exact values of the floats that are actually passed (knots and parameters)
+            prm = sorted(set(lib.to_frac(float(u)) for u in prm))
+            if rep != "int":
+                Uref = [lib.to_frac(float(k)) for k in U]
+                prm = [u for u in prm if Uref[0] <= u <= Uref[-1]]
+        expect = [rb.value(Uref, P, u, W, p) for u in prm]
         # scalar calls
         for u, ex in zip(prm, expect):
             res.transition()
             out = lib.outcome(c, lib.conv(u, rep))
-            _cmp(res, out, ex, exact, U, P, W, rep, u, p, "scalar")
+            _cmp(res, out, ex, exact, Uref, P, W, rep, u, p, "scalar")
         # one sequence call
         res.transition()
         out = lib.outcome(c, [lib.conv(u, rep) for u in prm])
